@@ -4,6 +4,7 @@ package verifsim
 
 import (
 	"os"
+	"runtime"
 	"sync/atomic"
 	"time"
 )
@@ -26,8 +27,29 @@ type wdReq struct {
 
 var wdCh = make(chan *wdReq, 64) // created at package initialisation: not a bubbled channel
 
+// outsideCh carries work that must not run on a goroutine of a bubble (anything that starts goroutines which
+// then block in real I/O, e.g. restarting a miniredis server: its accept loop would belong to the bubble).
+var outsideCh = make(chan func(), 16)
+
+// runOutside executes f on a goroutine outside any bubble and waits for it (real time, short).
+func runOutside(f func()) {
+	var done atomic.Bool
+	outsideCh <- func() {
+		defer done.Store(true)
+		f()
+	}
+	for !done.Load() {
+		runtime.Gosched()
+	}
+}
+
 // startWatchdogService runs outside any bubble (called from the process set-up).
 func startWatchdogService() {
+	go func() {
+		for f := range outsideCh {
+			f()
+		}
+	}()
 	go func() {
 		for r := range wdCh {
 			go func(r *wdReq) {
